@@ -1680,11 +1680,6 @@ func (g *Gen) mapModNames(fc *FnCtx, mv ssa.Value, ms *ModSet) {
 		dom := pfx + "mapdom!" + typeKey(m.Key())
 		fc.regArr(dom, "(Array Int (Array "+ks+" Bool))")
 		ms.Names[dom] = true
-		switch kindOf(m.Elem()) {
-		case KInt, KBool, KRef, KStr:
-			val := pfx + "mapval!" + typeKey(m.Key()) + "!" + typeKey(m.Elem())
-			fc.regArr(val, "(Array Int (Array "+ks+" "+fc.m.scalarSort(m.Elem())+"))")
-			ms.Names[val] = true
-		}
+		ms.addPfx(pfx + "mapval!" + typeKey(m.Key()) + "!" + typeKey(m.Elem()))
 	}
 }
